@@ -41,7 +41,7 @@ VARIANTS = ["none", "none", "reorder-file", "key-replaced", "key-added", "key-re
             "path-renamed", "hash-of-compressed", "hash-unsorted", "msg-truncated",
             "msg-extended", "foreign-header", "missing-target", "ui-key-mismatch", "wrong-root",
             "root-not-self-signed", "hash-flipped", "foreign-platform-id", "bundled-root",
-            "one-target-signature-broken"]
+            "one-target-signature-broken", "target-without-app-hash"]
 REQUIRED_LABELS = {t: ["plat:ledger", "plat:sgx", "accepted", "refused", "legacy", "current"] +
                    ["variant:" + v for v in sorted(set(VARIANTS))]
                    for t in ("quick", "thorough")}
@@ -203,6 +203,16 @@ def run_case(c):
             genuine = False
         if var in ("root-not-self-signed", "bundled-root"):
             labels[-1] += "-na"
+        if var == "target-without-app-hash":
+            # one of the two targets carries no application hash (tweak) and is signed by the
+            # bare attestation key: its chain verifies, but it attests to no installed
+            # application - there is no 'UI / signer hash' to report
+            nm = ("ui", "signer")[c["vtarget"]]
+            el = next(e for e in doc["elements"] if e["name"] == nm)
+            el.pop("tweak", None)
+            from vlib.certs import sign as _sign
+            el["signature"] = _sign(dev.att_sk, bytes.fromhex(el["message"])).hex()
+            genuine = False
         if var == "one-target-signature-broken":
             # one of the two attested messages carries a signature that does not verify, the
             # other target is in perfect order
@@ -243,7 +253,7 @@ def run_case(c):
                 "name": "sgx_root", "type": "x509_pem", "signed_by": "sgx_root",
                 "message": certs.der_to_b64(certs.cert_der(foreign.root_cert))})
             genuine = False
-        elif var == "one-target-signature-broken":
+        elif var in ("one-target-signature-broken", "target-without-app-hash"):
             labels[-1] += "-na"
         root_arg = tmp("root.pem")
         with open(root_arg, "wb") as f:
